@@ -755,6 +755,10 @@ func (env *Env) call(e *Expr) Term {
 	case "ufun":
 		efail("ufun is a declaration, not an expression")
 	}
+	// recursive spec function
+	if sf, ok := vc.prog.contracts.specs[e.Name]; ok && sf.Rec {
+		return env.recCall(sf, e)
+	}
 	// spec macro
 	if sf, ok := vc.prog.contracts.specs[e.Name]; ok {
 		if len(sf.Params) != len(e.Args) {
@@ -800,4 +804,87 @@ func (env *Env) call(e *Expr) Term {
 	}
 	efail("unknown function %s", e.Name)
 	return Term{}
+}
+
+func (env *Env) specType(s string) (types.Type, Sort) {
+	switch s {
+	case "Int", "int":
+		return types.Typ[types.Int], SInt
+	case "Bool", "bool":
+		return types.Typ[types.Bool], SBool
+	case "Str", "string":
+		return types.Typ[types.String], SStr
+	}
+	t := env.resolveType(s)
+	return t, env.vc.u.sortOf(t)
+}
+
+// recCall: application of a recursive spec function.  The function is defined once per VC by an
+// axiom quantified over its parameters and over the heap components its body reads.
+func (env *Env) recCall(sf *SpecFn, e *Expr) Term {
+	vc := env.vc
+	if vc.recDefs == nil {
+		vc.recDefs = map[string]*recDef{}
+	}
+	if len(e.Args) != len(sf.Params) {
+		efail("%s takes %d arguments", sf.Name, len(sf.Params))
+	}
+	rd := vc.recDefs[sf.Name]
+	if rd == nil {
+		rd = &recDef{sym: "rec_" + sf.Name}
+		rd.retT, rd.ret = env.specType(sf.Ret)
+		vc.recDefs[sf.Name] = rd
+		// pass 1: discover the components read
+		evalBody := func() (Term, map[string]bool) {
+			fh := &Heap{m: map[string]string{}, formal: map[string]bool{}}
+			n := &Env{vc: vc, vars: map[string]Term{}, cur: fh, old: fh, pkg: env.pkg, depth: 50}
+			for i, p := range sf.Params {
+				t, s := env.specType(sf.PTypes[i])
+				n.vars[p] = mk("a!"+p, s).withType(t)
+			}
+			return n.eval(sf.Body), fh.formal
+		}
+		rd.busy = true
+		_, used := evalBody()
+		rd.busy = false
+		rd.comps = sortedKeys(used)
+		// pass 2: the defining axiom
+		body, _ := evalBody()
+		var binders, argsyms []string
+		var sorts []Sort
+		for _, c := range rd.comps {
+			binders = append(binders, fmt.Sprintf("(H!%s %s)", c, vc.compSort[c]))
+			argsyms = append(argsyms, "H!"+c)
+			sorts = append(sorts, vc.compSort[c])
+		}
+		for i, p := range sf.Params {
+			_, s := env.specType(sf.PTypes[i])
+			binders = append(binders, fmt.Sprintf("(a!%s %s)", p, s))
+			argsyms = append(argsyms, "a!"+p)
+			sorts = append(sorts, s)
+		}
+		vc.u.ufun(rd.sym, sorts, rd.ret)
+		lhs := app(rd.sym, argsyms...)
+		vc.u.axiom("rec."+sf.Name, fmt.Sprintf("(assert (forall (%s) (! (= %s %s) :pattern (%s))))", strings.Join(binders, " "), lhs, body.S, lhs))
+	}
+	var args []string
+	if rd.busy {
+		// discovery pass: the arguments are evaluated for their reads, the result is a placeholder
+		for i := range e.Args {
+			env.eval(e.Args[i])
+		}
+		return mk("placeholder!rec", rd.ret).withType(rd.retT)
+	}
+	for _, c := range rd.comps {
+		args = append(args, vc.get(env.heap(), c))
+	}
+	for i := range e.Args {
+		a := env.eval(e.Args[i])
+		_, s := env.specType(sf.PTypes[i])
+		if a.Sort != s {
+			efail("%s: argument %d has sort %s, want %s", sf.Name, i+1, a.Sort, s)
+		}
+		args = append(args, a.S)
+	}
+	return mk(app(rd.sym, args...), rd.ret).withType(rd.retT)
 }
